@@ -494,6 +494,11 @@ def build_templates():
     TT["uconcatenate_mixed"] = T(lambda A, p: unyt.uconcatenate([A["x"], np.asarray(A["y"])]), ("x", "y"), cat="func")
     TT["np.where1"] = T(lambda A, p: np.where(np.asarray(A["x"]) > 0, A["x"]), ("x",), cat="func")
     TT["allclose_units"] = T(lambda A, p: unyt.allclose_units(A["x"], A["y"], rtol=A["y"]), ("x", "y"), cat="func")
+    TT["allclose_units_atol"] = T(lambda A, p: unyt.allclose_units(A["x"], A["x"], atol=A["y"]), ("x", "y"), cat="func")
+    TT["assert_allclose_units_atol"] = T(lambda A, p: __import__("unyt.testing").testing.assert_allclose_units(
+        A["x"], A["x"], atol=A["y"]), ("x", "y"), cat="func")
+    TT["np.allclose_atol"] = T(lambda A, p: np.allclose(A["x"], A["x"], atol=A["y"]), ("x", "y"), cat="func")
+    TT["np.isclose_atol"] = T(lambda A, p: np.isclose(A["x"], A["x"], atol=A["y"]), ("x", "y"), cat="func")
     return TT
 
 
@@ -698,7 +703,8 @@ class Gen18:
                 if r.random() < 0.25:
                     s["dtype"] = r.choice(self.cfg["dtypes"])
             spec[role] = s
-        if name == "np.fill_diagonal" or name.startswith("np.histogram_range") or name == "np.histogram_bin_edges_range":
+        if name == "np.fill_diagonal" or name.startswith("np.histogram_range") or name == "np.histogram_bin_edges_range" \
+                or name.endswith("_atol"):
             spec["y"]["shape"] = ()
             spec["y"]["q"] = True
         # --- apply the fault
